@@ -79,7 +79,7 @@ TReset ==
     /\ rdm' = [n \in Nodes |-> [start |-> 0, prev |-> ""]]
     /\ rdl' = [n \in Nodes |-> [q \in Reqs |-> 0]] /\ rconf' = [n \in Nodes |-> [q \in Reqs |-> 0]]
     /\ proc' = [n \in Nodes |-> <<>>] /\ mon' = [n \in Nodes |-> [q \in Reqs |-> 0]]
-    /\ resumed' = [n \in Nodes |-> FALSE] /\ unreg' = [n \in Nodes |-> 0]
+    /\ resumed' = [n \in Nodes |-> FALSE] /\ unreg' = [n \in Nodes |-> 0] /\ swept' = [n \in Nodes |-> {}]
     /\ cur' = [n \in Nodes |-> EmptyReg] /\ arch' = [n \in Nodes |-> EmptyReg]
     /\ cache' = [n \in Nodes |-> EmptyCache]
     /\ hon' = [r \in Rounds |-> [ok |-> TRUE, mis |-> {}]]
@@ -180,20 +180,29 @@ TDkgJoined ==
     /\ \E i \in SeatsOf(Ev.node) : mb[Ev.round][i].st = "gjkr"
     /\ UNCHANGED <<vars, tv>>
 
+\* the result hash is computed and -- by the same goroutine, a few events
+\* later -- the signature over it is sent; the two calls are one step of the
+\* specification: whether the signature left the node is read ahead
+SigLeaves(i, r) ==
+    \E j \in (l + 1)..(IF l + 80 < Len(Trace) THEN l + 80 ELSE Len(Trace)) :
+        /\ Trace[j].event = "ResultSigSent" /\ Trace[j].member = i /\ Trace[j].round = r /\ ~Trace[j].dropped
+        /\ \A x \in l..j : Trace[x].event # "Reset"
+
 TGjkrDone ==
     /\ IsEvent("GjkrDone") /\ Ev.round \in Rounds
     /\ \E i \in MembersOf(Ev) : \E o \in Outcomes(Ev.round, i) :
           /\ o.ok /\ o.mis = ToSet(Ev.mis)
           /\ BindKey(Ev.key, KeyIx(Ev.round, o.key))
-          /\ GjkrDone(Ev.round, i, o)
+          /\ GjkrDone(Ev.round, i, o, ~SigLeaves(i, Ev.round))
     /\ UNCHANGED <<run, dstart, rstart, fwdp, rjoin>>
 
 TResultSigSent ==
     /\ IsEvent("ResultSigSent") /\ Ev.round \in Rounds /\ Ev.known /\ KeyKnown(Ev.key)
     /\ \E i \in MembersOf(Ev) :
           /\ kmap[Ev.key] = KeyIx(Ev.round, mb[Ev.round][i].key) /\ ToSet(Ev.mis) = mb[Ev.round][i].mis
-          /\ SendSig(Ev.round, i, Ev.dropped)
-    /\ UNCHANGED tv
+          /\ mb[Ev.round][i].sent
+          /\ Ev.dropped \/ [from |-> i, key |-> mb[Ev.round][i].key, mis |-> mb[Ev.round][i].mis] \in sigs[Ev.round]
+    /\ UNCHANGED <<vars, tv>>
 
 \* the pre-check is reached only past the threshold gate
 TRegisteredAsked ==
@@ -201,7 +210,8 @@ TRegisteredAsked ==
     /\ \E i \in MembersOf(Ev) :
           /\ KeyKnown(Ev.key) /\ kmap[Ev.key] = KeyIx(Ev.round, mb[Ev.round][i].key)
           /\ VerifyAny(Ev.round, i)
-          /\ mb'[Ev.round][i].st = IF Ev.answer THEN "left" ELSE "ready"
+          /\ IF Ev.answer THEN mb'[Ev.round][i].obs /\ mb'[Ev.round][i].st \in {"keep", "out"}
+                          ELSE mb'[Ev.round][i].st = "ready"
     /\ UNCHANGED tv
 
 TSubmitted ==
@@ -252,11 +262,11 @@ TDkgClosed ==
 TSilentDkg ==
     /\ Silent /\ actR # 0
     /\ \E i \in Members :
-        \/ NextAbout(i, {"DkgExited"}) /\ GjkrDone(actR, i, Fail)
+        \/ NextAbout(i, {"DkgExited"}) /\ GjkrDone(actR, i, Fail, FALSE)
         \/ /\ NextAbout(i, {"DkgExited", "ResultObserved", "Registered"})
            /\ VerifyAny(actR, i) /\ mb'[actR][i].st = "pubfail"
         \/ NextAbout(i, {"DkgExited", "Registered"}) /\
-              (ObserveDkg(actR, i) \/ Resolve(actR, i) \/ FateEvent(actR, i))
+              (ObserveDkg(actR, i) \/ FateEvent(actR, i))
         \/ NextAbout(i, {"DkgExited"}) /\ FateTimeout(actR, i)
     /\ UNCHANGED tv
 
@@ -342,10 +352,13 @@ TSilentRelay ==
         \/ NextAbout(i, {"SigningExited"}) /\ (ObserveEntry(actQ, i) \/ RelayTimeout(actQ, i))
     /\ UNCHANGED tv
 
+\* (a monitor may lose the race between the submitted event and the timeout
+\* block: a report after the entry was accepted is rejected by the chain)
 TTimeoutReported ==
     /\ IsEvent("TimeoutReported") /\ Ev.req \in Reqs /\ Ev.req = actQ
     /\ Ev.accepted = (req[Ev.req].st = "open")
-    /\ ReportTimeout(Ev.node, Ev.req)
+    /\ Ev.block >= rstart[Ev.req] + run.timeout
+    /\ IF req[Ev.req].st = "open" THEN ReportTimeout(Ev.node, Ev.req) ELSE UNCHANGED vars
     /\ UNCHANGED tv
 
 TRelayClosed ==
@@ -364,7 +377,9 @@ TGroupStale ==
 TGroupRegisteredDelivered ==
     /\ IsEvent("GroupRegisteredDelivered") /\ KeyKnown(Ev.key)
     /\ kmap[Ev.key] = ChainKey(RoundOf(kmap[Ev.key]))
-    /\ DeliverGroupRegistered(Ev.node, RoundOf(kmap[Ev.key]))
+    /\ IF SweepMatters(Ev.node, RoundOf(kmap[Ev.key]))
+          THEN DeliverGroupRegistered(Ev.node, RoundOf(kmap[Ev.key]))
+          ELSE up[Ev.node] /\ UNCHANGED vars
     /\ UNCHANGED tv
 
 \* the sweep asks about every group it holds except the newest
